@@ -38,7 +38,7 @@ type obsRun struct {
 }
 
 var runs sync.Map // id -> *obsRun
-var runSeq int64
+var runSeq, pipeSeq int64
 
 func init() {
 	executor.VerifGateHook = func(ctx context.Context, ev string, job *executor.Job, err error) {
@@ -107,12 +107,22 @@ type stageSpec struct {
 // runPipeline executes stages on the real scheduler and runner.
 func runPipeline(o *obsRun, stages []stageSpec, format ...string) (error, bool) {
 	var list []*scheduler.Stage
+	pipeN := atomic.AddInt64(&pipeSeq, 1)
 	for _, s := range stages {
 		if s.t.Env == nil {
 			s.t.Env = variables.NewVariables()
 		}
 		s.t.Env = s.t.Env.With("VERIF_RUNID", o.id)
-		list = append(list, &scheduler.Stage{Name: s.t.Name, Task: s.t, DependsOn: s.deps})
+		st := &scheduler.Stage{Name: s.t.Name, Task: s.t, DependsOn: s.deps}
+		// every other pipeline has stage-level settings, as every stage built from a configuration
+		// file has (.Stage.Name): the stage then runs a private copy of its task
+		if n := pipeN; n%2 == 0 {
+			st.Variables = variables.FromMap(map[string]string{".Stage.Name": s.t.Name})
+			if n%4 == 0 {
+				st.Env = variables.FromMap(map[string]string{"STAGE_ONLY": "1"})
+			}
+		}
+		list = append(list, st)
 	}
 	g, err := scheduler.NewExecutionGraph(list...)
 	if err != nil {
@@ -129,6 +139,13 @@ func runPipeline(o *obsRun, stages []stageSpec, format ...string) (error, bool) 
 	go func() { done <- sd.Schedule(g) }()
 	select {
 	case e := <-done:
+		// a stage with settings of its own executed a private copy of its task: the results the
+		// harness reads (Output, Errored, ...) are the ones of the task the stage ran
+		for i, s := range stages {
+			if c := list[i].Task; c != nil && c != s.t {
+				s.t.Log, s.t.Errored, s.t.ExitCode, s.t.Skipped, s.t.Error = c.Log, c.Errored, c.ExitCode, c.Skipped, c.Error
+			}
+		}
 		return e, true
 	case <-time.After(30 * time.Second):
 		return nil, false
